@@ -354,6 +354,28 @@ func TestC13(t *testing.T) {
 		run(d("of the executed file"), "./"+sub+"/plugin", sha256.New(), sum(real), true, "")
 		run(d("of the file at the same relative path under the host's working directory"), "./"+sub+"/plugin", sha256.New(), sum(decoy), false, "mismatch")
 		run("relative command path with Cmd.Dir set, no file of that name under the host's working directory, checksum=of the executed file", "./"+sub+"/only-here", sha256.New(), sum(real), true, "")
+		// relative paths whose first component begins with a dot (a dot-directory, a dot-file, a leading ../): another file sits
+		// where the path would lead without its leading dots and slashes
+		os.MkdirAll(filepath.Join(root, ".tools", "bin"), 0o755)
+		os.MkdirAll(filepath.Join(root, "tools", "bin"), 0o755)
+		os.MkdirAll(filepath.Join(root, "work", "up"), 0o755)
+		os.MkdirAll(filepath.Join(root, "up"), 0o755)
+		decoy2 := []byte("#!/bin/sh\necho decoy2 >> " + marker + "\necho '1|1|tcp|127.0.0.1:1234'\nexec sleep 5\n")
+		for _, pp := range [][3]string{
+			{".tools/bin/plugin", ".tools/bin/plugin", "tools/bin/plugin"},
+			{"./.tools/bin/plugin", ".tools/bin/plugin", "tools/bin/plugin"},
+			{"./.plugin", ".plugin", "plugin"},
+			{"../up/plugin", "up/plugin", "work/up/plugin"}, // (with Cmd.Dir = root/work)
+		} {
+			os.WriteFile(filepath.Join(root, pp[1]), real, 0o755)
+			os.WriteFile(filepath.Join(root, pp[2]), decoy2, 0o755)
+			cmdDir = root
+			if strings.HasPrefix(pp[0], "../") {
+				cmdDir = filepath.Join(root, "work")
+			}
+			run("relative command path "+pp[0]+" with Cmd.Dir set checksum=of the executed file", pp[0], sha256.New(), sum(real), true, "")
+			run("relative command path "+pp[0]+" with Cmd.Dir set checksum=of the file the path would name without its leading dots and slashes", pp[0], sha256.New(), sum(decoy2), false, "mismatch")
+		}
 		cmdDir = ""
 	}
 	{
